@@ -219,7 +219,7 @@ PROPS = {
               "c08_priority_top_bottom_bounded", "c08_path_should_keep_bounded", "c08_path_may_drop_bounded",
               "c08_subgroup_times_bounded"] + ["c08_priority_%s_bounded" % _n for _n in TIME_PRIOS] + [
               "c06_is_prefix_of_compares_components_bounded"],
-        verus=["partition_tail", "subgroup_grouping"],
+        verus=["partition_tail", "subgroup_grouping", "run_dedupe_defaults"],
         prefixes=["C08.", "C02.partition_tail.", "C06.group.", "C06.is_prefix_of."],
         category="proof",
         trust=[],
